@@ -1236,7 +1236,7 @@ class DirLoad(Filter):
     quick_cases = 500
     thorough_cases = 6000
     quick_seconds = 14
-    thorough_seconds = 150
+    thorough_seconds = 100
     chunk = 50
     corpus = [
         # minimised failing input of the seeded change C12-11: api.py holds only SUITE metadata, the tests live in api/users.py
